@@ -365,3 +365,40 @@ func ProveList(provers []Prover, context, nonce *big.Int, issig bool) (gabi.Proo
 	}
 	return out, c
 }
+
+// ---------------------------------------------------------------------------------------------
+// Complete reference reconstruction of the challenge contributions of a ProofD (with optional
+// non-revocation and range parts), written from the protocol equations.
+
+// NonrevContributions recomputes (C_r, C_u, nu, t_cr, t_nu, t_one) from a transmitted non-revocation proof.
+func NonrevContributions(pk *gabikeys.PublicKey, cr, cu, nu, c, alpha *big.Int, resp map[string]*big.Int) []*big.Int {
+	n := pk.N
+	negc := new(big.Int).Neg(c)
+	neg := func(x *big.Int) *big.Int { return new(big.Int).Neg(x) }
+	tcr := mulmod(n, PowSigned(cr, negc, n), PowSigned(pk.G, resp["epsilon"], n), PowSigned(pk.H, resp["zeta"], n))
+	tnu := mulmod(n, PowSigned(nu, negc, n), PowSigned(cu, alpha, n), PowSigned(pk.H, neg(resp["beta"]), n))
+	tone := mulmod(n, PowSigned(cr, alpha, n), PowSigned(pk.G, neg(resp["beta"]), n), PowSigned(pk.H, neg(resp["delta"]), n))
+	return []*big.Int{cr, cu, nu, tcr, tnu, tone}
+}
+
+// RangeContributions recomputes (t_m, t_0..t_k) of one range proof attached to base index idx with hidden response mResp.
+func RangeContributions(pk *gabikeys.PublicKey, idx int, sign int, a uint, k *big.Int, cs, ds, vs []*big.Int, v5, mResp, c *big.Int) []*big.Int {
+	n := pk.N
+	R := pk.R[idx]
+	negc := new(big.Int).Neg(c)
+	exp := new(big.Int).Set(k)
+	if sign == 1 {
+		exp.Neg(exp)
+	}
+	pow := new(big.Int).Mul(new(big.Int).SetUint64(uint64(a)), big.NewInt(int64(sign)))
+	pow.Neg(pow)
+	tm := mulmod(n, PowSigned(PowSigned(R, exp, n), negc, n), PowSigned(pk.S, new(big.Int).Neg(v5), n), PowSigned(R, new(big.Int).Mul(pow, mResp), n))
+	for i := range cs {
+		tm = mulmod(n, tm, PowSigned(cs[i], ds[i], n))
+	}
+	out := []*big.Int{tm}
+	for i := range cs {
+		out = append(out, mulmod(n, PowSigned(cs[i], negc, n), PowSigned(R, ds[i], n), PowSigned(pk.S, vs[i], n)))
+	}
+	return out
+}
